@@ -620,6 +620,19 @@ def reindex_axis(self, values, axis=0, fill_value=np.nan, raise_error=False, met
 
     # Get indices
     ax = self.axes[axis]
+
+    # nothing to take from an empty axis: every requested label is missing
+    if ax.size == 0 and values.size > 0:
+        if raise_error:
+            raise IndexError("Some values where not found in the axis: {}".format(values))
+        pos = self.dims.index(ax.name)
+        shape = list(self.shape)
+        shape[pos] = values.size
+        newaxes = [Axis(values, a.name, **a.attrs) if a is ax else a.copy() for a in self.axes]
+        newobj = self._constructor(np.empty(shape, dtype=self.dtype), newaxes, **self.attrs)
+        newobj.put(np.ones(values.size, dtype=bool), fill_value, axis=pos, inplace=True, indexing="position", cast=True)
+        return newobj
+
     # indices = ax.loc(values, mode='clip', side=method)
     indices = locate_many(ax.values, values, side=method or 'left')
     newobj = self.take_axis(indices, axis, indexing='position')
